@@ -6,9 +6,14 @@ KINDS = ["nest", "nestclose", "text", "name", "attrs", "attrval", "comment", "un
 def gen(rng, n, tier, pid):
     sizes = [2000, 20000, 100000] if tier == "quick" else [2000, 20000, 100000, 250000, 1000000]
     out = []
+    linear = {"nest", "nestclose", "text", "endtags", "svg", "select", "rand", "selfuzz"}
     for k in KINDS:
         for s in sizes:
             if k == "manysel" and s > 100000:
+                continue
+            # one giant token re-lexed on every 4 KiB write costs len^2/8192 byte-steps (finding F29): keep the
+            # 4n input of token kinds at <= 4 MB so that a case stays within seconds
+            if k not in linear and s > 250000:
                 continue
             for h in range(3):
                 out.append(f"{k} {s} {rng.randrange(1, 1 << 30) * 3 + h}")
